@@ -2,6 +2,7 @@
 from __future__ import annotations
 
 import copy
+import itertools
 import json
 import re
 from typing import Dict, List, Optional
@@ -30,6 +31,9 @@ RULE = ("Hypothesis draws a type program biased to naming features: classes / Ne
         "definitions_schema returns exactly the inline definitions - for the root alone and for 2-4 entries (root, classes, containers of "
         "them, 45% paired with a dynamic conversion between two classes of the program): union of the entries' inline $defs under "
         "all_refs=True, closed under $ref, independent of entry order; a name clash raises ValueError instead of producing a schema.  "
+        "A small enumerated family covers inherited discriminators (@discriminator on a plain or dataclass base, two dataclass children, "
+        "roots Base / a child / a holder of children / List[Base] / Union of the children / Optional[Base] x all_refs x direction): generation does "
+        "not raise, the schema is meta-schema valid, every $ref and discriminator mapping target is defined, validating a datum terminates.  "
         "Non-trivial: >= 2 named types and >= 1 shared or recursive.  Distinct = hash(program shape, options).")
 ASSUMPTIONS = ["which multiply-nested named types are extracted under all_refs=False depends on traversal order: only the order-independent clauses above are asserted",
                "known findings C06-recursive-aggregate-field and C06-nested-flatten-schema apply here too (listed under C17 ids)"]
@@ -134,7 +138,10 @@ def strategy(tier):
     return strategy_(tier)
 
 
-describe = tdcase.describe
+def describe(case):
+    if case.get("disc_family"):
+        return disc_source(case) + f"entry={case['entry']} all_refs={case['all_refs']}"
+    return tdcase.describe(case)
 
 
 def custom_ref(name: str) -> str:
@@ -187,7 +194,77 @@ def type_name_of(prog, ref):
     return eval(tn) if tn else nt["name"]
 
 
+# ---------------------------------------------------------------------------------------
+# inherited discriminators: a small enumerated family (base class decorated with @discriminator)
+# ---------------------------------------------------------------------------------------
+
+DISC_ROOTS = {"base": "Base", "sub": "Cat", "holder": "Holder", "list_base": "List[Base]", "union": "Union[Cat, Dog]", "opt_base": "Optional[Base]"}
+
+
+def disc_source(case) -> str:
+    base = ["@discriminator('type')"] + (["@dataclass"] if case["base_dataclass"] else []) + ["class Base:"]
+    base += ["    owner: str = ''"] if case["base_dataclass"] and case["base_field"] else ["    pass"]
+    return "\n".join(base + ["@dataclass", "class Cat(Base):", "    lives: int = 9",
+                              "@dataclass", "class Dog(Base):", "    name: str = ''",
+                              "@dataclass", "class Holder:", "    pet: Cat", "    other: Optional[Dog] = None",
+                              f"ROOT = {DISC_ROOTS[case['root']]}"]) + "\n"
+
+
+def enumerate_cases(tier):
+    for base_dataclass, base_field, root, all_refs, entry in itertools.product(
+            (False, True), (False, True), DISC_ROOTS, (None, True, False), ("deserialization", "serialization")):
+        if base_field and not base_dataclass:
+            continue
+        yield {"disc_family": True, "base_dataclass": base_dataclass, "base_field": base_field, "root": root, "all_refs": all_refs, "entry": entry}
+
+
+def evaluate_disc(case, ctx):
+    ctx.count()
+    src = build.PRELUDE + disc_source(case)
+    try:
+        b = build.load({"future": True, "enums": [], "newtypes": [], "classes": []}, source=src)
+    except Exception as e:
+        raise HarnessError(f"discriminator program does not build: {e!r}\n{src}")
+    sig0 = {"family": "inherited_discriminator", "base_dataclass": case["base_dataclass"], "root": case["root"], "all_refs": str(case["all_refs"])}
+    try:
+        fn = deserialization_schema if case["entry"] == "deserialization" else serialization_schema
+        kw = {} if case["all_refs"] is None else {"all_refs": case["all_refs"]}
+        try:
+            schema = json.loads(json.dumps(fn(b.root, **kw)))
+        except BaseException as e:
+            ctx.violation({"kind": "crash", "exc": type(e).__name__, **sig0}, case, f"{type(e).__name__}: {e}\n{disc_source(case)}")
+            return
+        bad = jsoracle.check_schema(schema, "2020-12")
+        if bad:
+            ctx.violation({"kind": "invalid_against_declared_dialect", **sig0}, case, f"{bad}\n{tdcase.compact(schema, 700)}")
+            return
+        defs = schema.get("$defs", {})
+        refs = collect_refs(schema)
+        for d_ in defs.values():  # discriminator mappings point to definitions too
+            refs += [v for v in (d_.get("discriminator", {}).get("mapping") or {}).values()]
+        refs += [v for v in (schema.get("discriminator", {}).get("mapping") or {}).values()]
+        dangling = sorted({r for r in refs if not (r.startswith("#/$defs/") and r[len("#/$defs/"):] in defs)})
+        if dangling:
+            ctx.violation({"kind": "dangling_ref", **sig0}, case, f"{dangling} not in $defs {sorted(defs)}\n{tdcase.compact(schema, 900)}")
+            return
+        # the schema must be usable: validating a datum terminates (no definition referring to itself unguarded)
+        data = {"base": {"type": "Cat", "lives": 1}, "sub": {"lives": 1, "type": "Cat"}, "holder": {"pet": {"lives": 1, "type": "Cat"}},
+                "list_base": [{"type": "Dog"}], "union": {"type": "Dog", "name": "a"}, "opt_base": None}[case["root"]]
+        try:
+            jsoracle.validator(schema).is_valid(data)
+        except RecursionError:
+            ctx.violation({"kind": "validation_does_not_terminate", **sig0}, case, f"a definition refers to itself: {tdcase.compact(schema, 900)}")
+            return
+        ctx.nontriv(["disc_family", case])
+        ctx.sample({"program": disc_source(case), "entry": case["entry"], "all_refs": case["all_refs"], "definitions": sorted(defs)})
+        ctx.h("disc_family")
+    finally:
+        b.close()
+
+
 def evaluate(case, ctx):
+    if case.get("disc_family"):
+        return evaluate_disc(case, ctx)
     prog, opts = case["prog"], case["opts"]
     ctx.count()
     try:
